@@ -34,6 +34,8 @@ THEOREMS = [
     "PorepyVerif.C44.sh2_sound",
     "PorepyVerif.C44.sh_clip_planar",
     "PorepyVerif.C44.sh_clip_complete_planar",
+    "PorepyVerif.C44.inRegion_halfPlanes_iff",
+    "PorepyVerif.C44.sh2_hull_sound",
 ]
 LEAN_MODULES = ["PorepyVerif.C44.Props"]
 AUDIT = "PorepyVerif/C44/Audit.lean"
